@@ -28,6 +28,7 @@ RULE = (
 RULE += (' ' + 'Rounds 3-5: **kwargs callables with a rejected update_callable in their history; constant tuples referenced twice (same tuple object => same built object); a node type registered after a build already saw it unregistered.')
 RULE += (' ' + 'Round 7: NaN leaves (a Buildable holding one is not equal to itself, yet it is one instance).')
 RULE += (' ' + 'Round 6: chains of 60-420 levels (around and beyond the recursion budget) placed after other nodes: whether fdl.build returns or raises RecursionError, no instance is invoked twice in that one call.')
+RULE += (' ' + 'Round 8: callables that attempt nested fdl.build calls (1-3 each, all rejected) of a config the outer root also reaches: still one invocation per instance and one built object.')
 ASSUMPTIONS = [
     'reference evaluator refmodel.ref_build (identity memo, pins keys)',
     'id reuse by the allocator is made likely by Box temporaries, not certain',
@@ -41,6 +42,11 @@ FLOORS = {'alias': 0.3, 'copyof': 0.15, 'box': 0.15}
 def strategy_(draw, tier):
   if draw(st.sampled_from(range(25))) == 0:
     return {'late_registration': True, 'probe_first': draw(st.booleans()), 'n_items': draw(st.integers(1, 3))}
+  if draw(st.sampled_from(range(25))) == 2:
+    # round 8: callables that attempt nested fdl.build calls of a config the outer root also
+    # reaches (each attempt is rejected; nothing is invoked twice)
+    return {'nested_attempts': True, 'attempts': draw(st.integers(1, 3)), 'nesters': draw(st.integers(1, 2)),
+            'shared_first': draw(st.booleans())}
   if draw(st.sampled_from(range(25))) == 1:
     # a chain deeper than the interpreter's recursion budget, visited after some other nodes
     return {'over_budget': True, 'depth': draw(st.integers(60, 420)), 'early': draw(st.integers(1, 3)),
@@ -183,6 +189,35 @@ def check_late_registration(case, out):
   return out
 
 
+def check_nested_attempts(case, out):
+  out.cls('nested_attempts')
+  out.nontrivial = True
+  shared = fdl.Config(things.f2, x='shared-nested')
+  nesters = [fdl.Config(things.nester, x=f'n{i}', attempts=case['attempts']) for i in range(case['nesters'])]
+  kw = {'b': shared, 'c': nesters} if case['shared_first'] else {'b': nesters, 'c': shared}
+  root = fdl.Config(things.h1, a='root', d=fdl.Config(things.f2, x='user', child=shared), **kw)
+  things.NESTED_TARGET = shared
+  del things.NESTED_LOG[:]
+  vuni.reset_log()
+  feat = f'nested-attempts:{case["attempts"]}x{case["nesters"]}'
+  try:
+    built = fdl.build(root)
+  except Exception as e:  # pylint: disable=broad-except
+    out.add('build-raises', type(e).__name__, '', feat, repr(e)[:300])
+    return out
+  finally:
+    things.NESTED_TARGET = None
+  n_instances = 3 + case['nesters']
+  if len(vuni.LOG) != n_instances:
+    out.add('invocation-count', 'mismatch', '', feat,
+            f'{len(vuni.LOG)} invocations for {n_instances} distinct Config instances; nested attempts: {things.NESTED_LOG}')
+    return out
+  s_built = built.bound['b'] if case['shared_first'] else built.bound['c']
+  if built.bound['d'].bound['child'] is not s_built:
+    out.add('same-config-object-different-built-objects', 'identity', '', feat, '')
+  return out
+
+
 def check_over_budget(case, out):
   """Depth around / beyond the recursion budget: fdl.build either returns or raises
   RecursionError; either way no Buildable instance is invoked more than once during that one
@@ -240,6 +275,8 @@ def check(case):
     return check_late_registration(case, out)
   if case.get('over_budget'):
     return check_over_budget(case, out)
+  if case.get('nested_attempts'):
+    return check_nested_attempts(case, out)
   root, objs = dags.build(case)
   stats = dags.recipe_stats(case)
   if stats['aliases']:
